@@ -322,3 +322,4 @@ MANIFEST = {
             "method (outside the exactness claim).",
     "technique": "inductive invariant discharged by polynomial normal forms + structural edge/role checks (AST)",
 }
+MANIFEST["text"] += ' Edge end points are evaluated abstractly (id grid, roll along an axis, border slices, flattening): periodic edges are grid↔roll(axis, ±1) pairs, bounded edges are complementary border slices; shifting the flattened ids is reported as a helical seam.'
